@@ -6,7 +6,7 @@ import ModbusProofs.Lemmas.RespRoundTrip
       least one byte / one register) encodes to a frame that every parse path decodes to exactly
       that value - transaction id, unit id, addresses, counts, payload - which therefore re-encodes
       to the same frame; stated for all payload lengths 1..255 and arbitrary payload bytes.
-      FC17 (variable layout) is covered by the correspondence check; its Lean round trip is not
+      FC17 (variable layout): `roundtrip_sid_tcp` / `roundtrip_sid_rtu` below; (the sentence continues:)
       stated here (see DESIGN.md).
   (2) every 9-byte TCP / 5-byte RTU frame whose function byte has the high bit set is reported as the
       typed exception carrying the frame's unit id, function code - 128 and exception code; never as a value.
@@ -80,6 +80,75 @@ theorem roundtrip_rtu (r : Resp) (h : Resp.WF9 r) (sp : Bytes) :
   have h4 : ¬ r.bytesRTU.length < 4 := by omega
   simp only [h4, if_false, hc, Bool.not_true, Bool.false_eq_true]
   exact h2
+
+/-- (1) FC17 (read server id) over TCP, in the library's layout (id length, id, run status, additional data):
+additional data is reported as absent or non-empty -/
+theorem roundtrip_sid_tcp (tid : UInt16) (u st : UInt8) (id : Bytes) (add : Option Bytes)
+    (h1 : 1 ≤ id.length) (h2 : id.length ≤ 255) (h3 : add ≠ some []) (sp : Bytes) :
+    parseRespTCPfc 17 ⟨(Resp.sid u st id add).bytesTCP tid, sp⟩ = .ok (tid, .sid u st id add) ∧
+    parseTCPResponse ⟨(Resp.sid u st id add).bytesTCP tid, sp⟩ = .ok (tid, .sid u st id add) := by
+  have hbl : (UInt8.ofNat id.length).toNat = id.length := by simp [UInt8.toNat_ofNat']; omega
+  have key : parseSidRespTCP ⟨(Resp.sid u st id add).bytesTCP tid, sp⟩ = .ok (tid, .sid u st id add) := by
+    have := rt_sidresp_tcp_aux tid (UInt16.ofNat (Resp.sid u st id add).pdu.length) u st (UInt8.ofNat id.length) id
+      (add.getD []) hbl h1 sp
+    have e : (if add.getD [] = [] then none else some (add.getD [])) = add := by
+      cases add with
+      | none => rfl
+      | some t =>
+        have : t ≠ [] := fun e => h3 (by rw [e])
+        simp [this]
+    rw [e] at this
+    exact this
+  refine ⟨key, ?_⟩
+  have hlen : ((Resp.sid u st id add).bytesTCP tid).length = 10 + id.length + (add.getD []).length := by
+    unfold Resp.bytesTCP mbap put16 Resp.pdu; simp; omega
+  have hfc7 : ((Resp.sid u st id add).bytesTCP tid).getD 7 0 = 17 := by
+    unfold Resp.bytesTCP mbap put16 Resp.pdu; simp [List.getD_eq_getElem?_getD]
+  unfold parseTCPResponse asTCPErrorPacket
+  dsimp only
+  have h8 : ¬ ((Resp.sid u st id add).bytesTCP tid).length < 8 := by omega
+  have h9 : ((Resp.sid u st id add).bytesTCP tid).length ≠ 9 := by omega
+  simp (disch := omega) only [h8, h9, if_false, if_true, ne_eq, not_false_eq_true, Res.bind_ok, idx_eq, hfc7]
+  exact key
+
+/-- (1) FC17 over RTU: the parser reports the additional data as a (possibly empty) byte string -/
+theorem roundtrip_sid_rtu (u st : UInt8) (id t : Bytes) (h1 : 1 ≤ id.length) (h2 : id.length ≤ 255) (sp : Bytes) :
+    parseRespRTUfc 17 ⟨(Resp.sid u st id (some t)).bytesRTU, sp⟩ = .ok (.sid u st id (some t)) ∧
+    parseRTUResponse ⟨(Resp.sid u st id (some t)).bytesRTU, sp⟩ = .ok (.sid u st id (some t)) ∧
+    parseRTUResponseWithCRC ⟨(Resp.sid u st id (some t)).bytesRTU, sp⟩ = .ok (.sid u st id (some t)) := by
+  have hbl : (UInt8.ofNat id.length).toNat = id.length := by simp [UInt8.toNat_ofNat']; omega
+  obtain ⟨r, hr⟩ : ∃ r, r = Resp.sid u st id (some t) := ⟨_, rfl⟩
+  rw [← hr]
+  have e : r.bytesRTU = r.pdu ++ [lo8 (crc16 r.pdu), hi8 (crc16 r.pdu)] := rfl
+  have hpdu : r.pdu = [u, 17, UInt8.ofNat id.length] ++ id ++ [st] ++ t := by simp [hr, Resp.pdu]
+  have h1' : parseRespRTUfc 17 ⟨r.bytesRTU, sp⟩ = .ok r := by
+    rw [e, hpdu, hr]
+    exact rt_sidresp_rtu_aux u st (UInt8.ofNat id.length) _ _ id t hbl h1 sp
+  have hlen : r.bytesRTU.length = 6 + id.length + t.length := by rw [e, hpdu]; simp; omega
+  have hfc1 : r.bytesRTU.getD 1 0 = 17 := by rw [e, hpdu]; simp [List.getD_eq_getElem?_getD]
+  have h2' : parseRTUResponse ⟨r.bytesRTU, sp⟩ = .ok r := by
+    unfold parseRTUResponse asRTUErrorPacket
+    dsimp only
+    have h4 : ¬ r.bytesRTU.length < 4 := by omega
+    have h5 : r.bytesRTU.length ≠ 5 := by omega
+    simp (disch := omega) only [h4, h5, if_false, if_true, ne_eq, not_false_eq_true, Res.bind_ok, idx_eq, hfc1]
+    exact h1'
+  refine ⟨h1', h2', ?_⟩
+  unfold parseRTUResponseWithCRC
+  dsimp only
+  have hc : crcMatches r.bytesRTU = true := by
+    rw [e]; exact (crcMatches_iff _ _ _).2 ⟨rfl, rfl⟩
+  have h4 : ¬ r.bytesRTU.length < 4 := by omega
+  simp only [h4, if_false, hc, Bool.not_true, Bool.false_eq_true]
+  exact h2'
+
+/-- the frame is reproduced byte for byte in both framings: absent and empty additional data encode alike -/
+theorem sid_none_encodes_as_empty (u st : UInt8) (id : Bytes) :
+    (Resp.sid u st id none).pdu = (Resp.sid u st id (some [])).pdu := by simp [Resp.pdu]
+
+/-- non-vacuity: a 255-byte server id with additional data -/
+example : (Resp.sid 1 0xFF (List.replicate 255 0x41) (some [1, 2, 3])).pdu.length = 262 := by
+  decide +kernel
 
 /-- (1) the payload bytes are arbitrary and every byte count 1..255 occurs: non-vacuity -/
 example : Resp.WF9 (.bits 1 7 255 (List.replicate 255 0xA5)) := by
